@@ -535,7 +535,7 @@ def run(ctx):
         n = run_part_a(ctx, sp, False, [])
         ctx.log('part A page size %d: %d sessions' % (sp, n))
 
-    ctx.trusted = lib.DEFAULT_TRUSTED + ['translators/consts_probe.c (T1: FLATCC_EMITTER_PAGE_SIZE, FLATCC_IOV_COUNT_MAX from /repo headers)',
+    ctx.trusted = lib.DEFAULT_TRUSTED + ['translators/cleaf_to_coq.py (T5: clang 14 -ast-dump=json of builder.c pad/alignup helpers and emit guards -> coq/Generated/Leaf_builder.v; output must be proved equal to the model)', 'translators/consts_probe.c (T1: FLATCC_EMITTER_PAGE_SIZE, FLATCC_IOV_COUNT_MAX from /repo headers)',
                                           'python regex scan of the init_iov/push_iov/emit_front/emit_back call sites in builder.c']
     ctx.assumptions = ['signed 32-bit reference arithmetic modelled as two\'s complement wrap (C leaves the overflow undefined; optimised gcc and clang builds are both tested)',
                        'size_t sums of at most four pieces of object sizes below 2^62 do not wrap',
